@@ -1,7 +1,7 @@
 """Per-property and per-suite configuration of the orchestrator."""
 
 # .vo files Extract.v depends on (built before extraction)
-EXTRACT_DEPS = ['Codec/FilterCase.vo', 'Agent/ReasmRs.vo', 'Agent/Model.vo', 'Agent/Monitors.vo', 'Codec/WireMon.vo', 'Codec/AttrValue.vo']
+EXTRACT_DEPS = ['Codec/FilterCase.vo', 'Agent/ReasmRs.vo', 'Agent/Model.vo', 'Agent/Monitors.vo', 'Codec/WireMon.vo', 'Codec/EncodeMsg.vo', 'Codec/AttrValue.vo']
 
 SUITES = {
     'attrval': dict(bin='attrval', nontrivial=r'^C [DE] '),
@@ -10,6 +10,8 @@ SUITES = {
     # non-trivial: at least two chunks
     'agent': dict(bin='agent', nontrivial=r'^H '),
     'wire': dict(bin='wire', nontrivial=r'^C (F |\S+ \S{48})'),
+    'encbuf': dict(bin='encbuf', nontrivial=r'^C \d+ \d \S+ \d+ \S+ [pmsf]'),
+    'encbuf-release': dict(bin='encbuf', driver='encbuf', release=True, nontrivial=r'^C \d+ \d \S+ \d+ \S+ [pmsf]'),
     'reasm': dict(bin='reasm', nontrivial=r'^C \d+ \S+ \S+'),
 }
 
@@ -80,4 +82,11 @@ PROPS = {
     'C04': dict(suites=['wire'], monitors=['C04acc', 'C04fault'], rule=WIRE_RULE, assumptions=WIRE_ASSUME),
     'C10': dict(suites=['wire', 'agent'], monitors=['C10acc', 'C10fault', 'C10'], rule=WIRE_RULE + ' + ' + AGENT_RULE, assumptions=WIRE_ASSUME + AGENT_ASSUME),
     'C18': dict(suites=['filter', 'wire'], monitors=['C18all', 'C18', 'C18ud'], rule=WIRE_RULE + ' + suite filter (see C09)', assumptions=WIRE_ASSUME),
+    'C14': dict(suites=['encbuf', 'encbuf-release'], monitors=['C14'],
+                rule='suite encbuf (debug build with overflow checks, and release build): generated messages (DATA, SOFTWARE, PRIORITY, USE-CANDIDATE, MOBILITY-TICKET '
+                     'values, every legal MI/SHA256/FINGERPRINT tail) encoded into buffers of EVERY length 0..needed+8, pre-filled with 0x00, 0xFF and a byte pattern; '
+                     'attribute lists of 65,500..65,540, 70,000, 131,072 and 200,000 attribute bytes built from DATA chunks, one value of 65,536 bytes; the whole buffer '
+                     'after the call (md5) is compared with the Gallina encoder; distinct = distinct records; non-trivial = at least one attribute',
+                assumptions=['value encoders of the kinds used write exactly their value after checking the room (checked by the correspondence)']),
+    'C15': dict(suites=['agent'], monitors=['C15'], rule=AGENT_RULE + '; one history in ten is a long send/response sequence (20-150 transactions, response delays 1 ms .. 3 s, idle gaps 600 s -1/+0/+1 ns and 1300 s)', assumptions=AGENT_ASSUME),
 }
